@@ -11,6 +11,7 @@ import (
 	"crypto/x509"
 	"crypto/x509/pkix"
 	"math/big"
+	"net"
 	"time"
 
 	tls "github.com/refraction-networking/utls"
@@ -23,6 +24,10 @@ const (
 	nameO = "other.c14.test"  // Config.InsecureServerNameToVerify when it is a name
 	nameP = "public.c14.test" // ECH public name
 	nameW = "wrong.c14.test"  // never requested by any configuration
+	// IP-literal ServerNames: hostnameInSNI drops them, so nothing goes into SNI
+	ip4     = "10.9.8.7"
+	ip6     = "2001:db8::7"
+	ipOther = "10.9.8.8"
 )
 
 type leafKind int
@@ -42,10 +47,12 @@ const (
 	lIntTShort // trusted root -> intermediate valid at T0 but expiring before the leaf -> leaf
 	lIntU      // untrusted root -> intermediate valid beyond the leaf's NotAfter -> leaf
 	lIntUShort // untrusted root -> intermediate expiring before the leaf -> leaf
+	lIP        // valid, IP SANs 10.9.8.7 and 2001:db8::7, no DNS name
+	lIPOther   // valid, IP SAN 10.9.8.8 only
 	nLeaf
 )
 
-var leafNames = [...]string{"all", "S", "O", "P", "W", "untrusted", "expired", "notyet", "long", "intT", "intTshort", "intU", "intUshort"}
+var leafNames = [...]string{"all", "S", "O", "P", "W", "untrusted", "expired", "notyet", "long", "intT", "intTshort", "intU", "intUshort", "ip", "ipother"}
 
 func (k leafKind) String() string { return leafNames[k] }
 
@@ -119,6 +126,23 @@ func newPKI() *pki {
 	mk(lExpired, all, T0.Add(-48*time.Hour), T0.Add(-24*time.Hour), true)
 	mk(lNotYet, all, T0.Add(24*time.Hour), T0.Add(48*time.Hour), true)
 	mk(lLong, all, vb, T0.Add(96*time.Hour), true)
+	mkIP := func(kind leafKind, ips ...string) {
+		t := &x509.Certificate{SerialNumber: big.NewInt(int64(100 + kind)), Subject: pkix.Name{CommonName: "c14 leaf " + kind.String()},
+			NotBefore: vb, NotAfter: va, KeyUsage: x509.KeyUsageDigitalSignature,
+			ExtKeyUsage: []x509.ExtKeyUsage{x509.ExtKeyUsageServerAuth}}
+		for _, ip := range ips {
+			t.IPAddresses = append(t.IPAddresses, net.ParseIP(ip))
+		}
+		der, err := x509.CreateCertificate(rand.Reader, t, p.ca, &lk.PublicKey, p.caKey)
+		if err != nil {
+			panic(err)
+		}
+		c, _ := x509.ParseCertificate(der)
+		p.leaves[kind] = &leaf{kind: kind, der: der, cert: c, trusted: true,
+			tlsCert: tls.Certificate{Certificate: [][]byte{der}, PrivateKey: lk, Leaf: c}}
+	}
+	mkIP(lIP, ip4, ip6)
+	mkIP(lIPOther, ipOther)
 	// intermediates: issued by the trusted / the untrusted root, outliving the leaf or expiring before it
 	mkInt := func(kind leafKind, trusted bool, ina time.Time) {
 		ik, err := ecdsa.GenerateKey(elliptic.P256(), rand.Reader)
@@ -157,6 +181,15 @@ func newPKI() *pki {
 
 // x509Verify is Go's own verifier with exactly the options given: the oracle for "the chain
 // verifies against RootCAs at time t and the leaf matches name" (name "" = no name check).
+// sanNames: every name the leaf is valid for, DNS names and IP SANs (canonical text).
+func (l *leaf) sanNames() []string {
+	out := append([]string{}, l.cert.DNSNames...)
+	for _, ip := range l.cert.IPAddresses {
+		out = append(out, ip.String())
+	}
+	return out
+}
+
 func (p *pki) x509Verify(l *leaf, name string, t time.Time) error {
 	inter := x509.NewCertPool()
 	for _, ic := range l.inter {
